@@ -6,6 +6,8 @@
        128-EEA3 test sets, FIPS-197 blocks, SP 800-38A CTR) is reproduced bit for bit;
      * table laws, exhaustively over all octets: the four S-boxes are permutations, MUL_alpha and DIV_alpha are
        inverse GF(2^32) maps;
+     * every frozen 128-EEA3 corner point (tables/vectors/zuc_corners.json) does drive THIS model's LFSR into the stated rare
+       case of the arithmetic modulo 2^31-1 at the stated clock (so the generated cases built on them cover those branches);
      * laws of the confidentiality functions on every bit length 0..MaxBits for every algorithm: involution,
        bit-prefix stability (the first m bits of EEA(d, n) are EEA(d, m)), keystream independence of the
        plaintext, the NULL algorithm, dependence on DIRECTION and BEARER only through the specified IV octet. *)
@@ -18,11 +20,13 @@ V3 == JsonDeserialize("eea3.json").cases
 VS == JsonDeserialize("snow3g.json").cases
 VZ == JsonDeserialize("zuc.json").cases
 VA == JsonDeserialize("aes.json")
+ZC == JsonDeserialize("zuc_corners.json")          \* frozen corner points of the ZUC arithmetic (tools/zuccorners)
 IdxOf(s) == 1..Len(s)
 Items ==
   ({"eea1"} \X IdxOf(V1) \X {0}) \cup ({"eea2"} \X IdxOf(V2) \X {0}) \cup ({"eea3"} \X IdxOf(V3) \X {0})
   \cup ({"snow3g"} \X IdxOf(VS) \X {0}) \cup ({"zuc"} \X IdxOf(VZ) \X {0})
   \cup ({"aesblock"} \X IdxOf(VA.block) \X {0}) \cup ({"aesctr"} \X IdxOf(VA.ctr) \X {0})
+  \cup ({"zuccorner"} \X {i \in IdxOf(ZC) : ZC[i].kind = "eea3"} \X {0})
   \cup ({"perm"} \X (1..4) \X {0})
   \cup ({"alpha"} \X (1..4) \X (0..255))
   \cup ({"laws"} \X (0..3) \X (0..MaxBits))
@@ -55,6 +59,7 @@ ItemOK ==
     [] k = "zuc" -> LET c == VZ[i] IN ZucWords(c.key, c.iv, Len(c.out) \div 4) = c.out
     [] k = "aesblock" -> LET c == VA.block[i] IN AES!Encrypt(c.key, c.data) = c.out
     [] k = "aesctr" -> LET c == VA.ctr[i] IN AES!CtrXor(c.key, c.ctr, c.data) = c.out
+    [] k = "zuccorner" -> LET c == ZC[i] IN ZUC!CornerReached(c.key, EEA3iv(c.cnt, c.bearer, c.dir), c.clock, c.pred)
     [] k = "perm" -> Perm(CASE i = 1 -> S3G!SR [] i = 2 -> S3G!SQ [] i = 3 -> ZUC!ZS0 [] OTHER -> ZUC!ZS1)
     [] k = "alpha" -> LET w == WordAt(i, j) IN S3G!DivAlphaW(S3G!MulAlphaW(w)) = w /\ S3G!MulAlphaW(S3G!DivAlphaW(w)) = w
     [] k = "laws" -> Laws(i, j)
